@@ -273,6 +273,17 @@ def repo_wac_files():
     return files
 
 
+LEXICAL = [
+    ("package a:b; type t-1 = u8;", "reject"), ("package a:b; type %t-1a = u8;", "reject"),
+    ("package a:b; record r { x-2: u8 }", "reject"), ("package a:b-1;", "reject"), ("package a:b; import i: c:d/e-4f;", "reject"),
+    ("package a:b; type t1-a2b3 = u8;", "accept"),
+    ("package a:b; export i... as k;", "reject"), ("package a:b; export i ... as \"k\";", "reject"),
+    ("package a:b; export i...;", "accept"), ("package a:b; export i as k;", "accept"),
+    ("package a:b; /* /*/ */ type t = u8;", "reject"), ("package a:b; /* /* */ */ type t = u8;", "accept"),
+    ("package a:b;\n/* /*/ */ type t = u8; // */\ntype u = u8;\n", "accept"),
+]
+
+
 def build_docs(tier):
     g = ensure_grammar()
     (ex, exs), (sim, sims) = sentences(tier)
@@ -321,6 +332,10 @@ def build_docs(tier):
     for j, d in enumerate(cp):
         d["id"] = len(docs)
         docs.append(d)
+    # lexical shapes the token-level machine cannot produce (verdicts read off the lexical grammar of LANGUAGE.md:
+    # every word of an id starts with a letter; `...` and `as` are alternatives; block comments nest)
+    for text, expect in LEXICAL:
+        docs.append({"id": len(docs), "text": text, "expect": expect, "origin": "lexical shape", "key": "lexical", "kf": []})
     stats = {"sentences": len(sents), "exhaustive_sentences": exs["lines"], "simulated_sentences": sims["lines"],
              "mutants": n_m, "mutants_still_in_language": in_lang, "codepoint_docs": len(cp),
              "generator_states": exs["distinct"], "generator_transitions": exs["generated"],
@@ -410,10 +425,22 @@ def directed_c14_docs(sents, tier):
               "package a:b;", "package a:b; // é", "package a:b;\né", "é", "€", "\U0001F600", "package a:b targets",
               "package a:b;\nlet x = \"é", "package a:b;\nexport x as \"é\";", "package a:b;\nexport x as \"€\U0001F600\""]:
         add(t, f"degenerate {t!r}", resolve=True)
+    # a byte order mark in front of a document that fails later: offsets count from the start of what was passed in
+    for t in ["package test:comp; // é\n$", "package test:comp@1.m.0;", "package test:comp;\nlet x = undefined-name;",
+              "package test:comp;\nlet x ="]:
+        add("﻿" + t, f"byte order mark + {t!r}", resolve=True)
+    # a world item path that names an inline interface of another world of the document (an instance, not an interface)
+    add("package test:comp;\nworld w { export x: interface { f: func(); }; }\nworld v { import test:comp/w/x; }\n",
+        "world item path to an inline interface", resolve=True)
+    add("package test:comp;\nworld w { import x: interface { f: func(); }; }\nworld v { export test:comp/w/x; }\n",
+        "world item path to an inline interface (export)", resolve=True)
     step = 40 if tier == "quick" else 8
     for s in sents[::step]:
         acc = ""
         for u in s.units:
+            # the text ends exactly with a token (nothing after it, no newline): the end-of-input diagnostic
+            # is computed while that token is still the lexer's current one
+            add(acc + u[1], f"{s.origin} cut right after the token ending at byte {len(acc) + len(u[1])}")
             acc += u[1] + u[2]
             for tail in (" // é", " /* € */", " é", "\"é"):
                 add(acc + tail, f"{s.origin} cut after {len(acc)} bytes + {tail!r}")
